@@ -36,7 +36,8 @@ OnPipeRet == /\ Ev.e = "PipeRet" /\ piped' = piped \cup {Ev.a} /\ UNCHANGED <<ba
 OnFwd == /\ Ev.e = "Fwd"
          /\ fwd' = Put(fwd, Ev.a, Get(fwd, Ev.a, 0) + 1)
          /\ seen' = seen \cup {Ev.s}
-         /\ bad' = IF Get(fwd, Ev.a, 0) >= 1 THEN Flag("ForwardedExactlyOnce")
+         /\ bad' = IF Ev.a = "bystander" THEN Flag("OnlyNamedForwarders")   \* an actor nobody piped to
+                   ELSE IF Get(fwd, Ev.a, 0) >= 1 THEN Flag("ForwardedExactlyOnce")
                    ELSE IF Ev.s = "unset" THEN Flag("ValueIsFinalResult")
                    ELSE IF Ev.s \notin attempts THEN Flag("OwnReplyOnly")
                    ELSE IF seen \ {Ev.s} # {} THEN Flag("CompletesOnce")
